@@ -22,4 +22,12 @@ DocsSmall == {
   [title |-> "P", body |-> " ", tasks |-> <<T("a", <<>>)>>]          \* blank body
 }
 NoDocs == {}
+
+\* every document over three task titles: each task's `after` is any subset of the
+\* titles (self references, forward references, cycles and DAGs alike)
+Titles3 == <<"a", "b", "c">>
+AfterSeq(S) == SetToSeq(S)
+DocsGen3 == {Doc("G", [k \in 1..3 |-> T(Titles3[k], AfterSeq(f[k]))]) : f \in [1..3 -> SUBSET {"a", "b", "c"}]}
+DocsGen2 == {Doc("G", [k \in 1..2 |-> T(Titles3[k], AfterSeq(f[k]))]) : f \in [1..2 -> SUBSET {"a", "b"}]}
+DocsAll == DocsSmall \cup DocsGen3 \cup DocsGen2
 =============================================================================
